@@ -514,17 +514,19 @@ fn write_tilemap_cel_to_image(
         opacity: cel_opacity,
         ..
     } = cel_data;
-    let cel_x = *x as i32;
-    let cel_y = *y as i32;
+    // Coordinates are computed in i64: a tilemap can be 65535 tiles of 65535
+    // pixels wide, and one tile can have more than 2^31 pixels.
+    let cel_x = *x as i64;
+    let cel_y = *y as i64;
     let opacity = mul_un8(outer_opacity as i32, *cel_opacity as i32);
     // tilemap dimensions
-    let tilemap_width = tilemap_data.width() as i32;
-    let tilemap_height = tilemap_data.height() as i32;
+    let tilemap_width = tilemap_data.width() as i64;
+    let tilemap_height = tilemap_data.height() as i64;
     //let tiles = &tilemap_data.tiles;
     // tile dimensions
     let tile_size = tileset.tile_size();
-    let tile_width = tile_size.width() as i32;
-    let tile_height = tile_size.height() as i32;
+    let tile_width = tile_size.width() as i64;
+    let tile_height = tile_size.height() as i64;
     // pixels
     let blend_fn = blend_mode_to_blend_fn(*blend_mode);
 
@@ -543,8 +545,8 @@ fn write_tilemap_cel_to_image(
                     let image_x = (tile_x * tile_width) + pixel_x + cel_x;
                     let image_y = (tile_y * tile_height) + pixel_y + cel_y;
                     // Skip pixels off of the canvas.
-                    let x_in_bounds = (0..(image.width() as i32)).contains(&image_x);
-                    let y_in_bounds = (0..(image.height() as i32)).contains(&image_y);
+                    let x_in_bounds = (0..(image.width() as i64)).contains(&image_x);
+                    let y_in_bounds = (0..(image.height() as i64)).contains(&image_y);
                     if x_in_bounds && y_in_bounds {
                         let image_x = image_x as u32;
                         let image_y = image_y as u32;
